@@ -135,7 +135,7 @@ pub fn show_man(m: &Manifest) -> String {
 // update sets: several replicas, several shards per replica, each (replica, shard) its own clock
 // ---------------------------------------------------------------------------------------------
 
-const SKEYS: [&str; 6] = ["k", "k2", "é", "h", "h2", ""];
+const SKEYS: [&str; 8] = ["k", "k2", "é", "h", "h2", "", "kk3", "h3"];
 
 fn payload(rng: &mut Rng) -> Vec<u8> {
     match rng.below(5) {
@@ -148,7 +148,7 @@ fn payload(rng: &mut Rng) -> Vec<u8> {
 
 pub fn gen_updates(rng: &mut Rng, out: &mut Out, max_steps: u64) -> Vec<Upd> {
     let nrep = rng.range(1, 3) as usize;
-    let nshard = rng.range(1, 4) as usize;
+    let nshard = *rng.pick(&[1usize, 2, 3, 4, 8, 16]);
     let chaos = rng.chance(1, 8); // keys change type
     let causal = rng.chance(1, 6);
     let level = if causal { ConsistencyLevel::Causal } else { ConsistencyLevel::Eventual };
@@ -703,5 +703,5 @@ pub fn run(a: &Args) {
         }
     });
     let _: Value = json!(null);
-    out.finish("case = one generated update set (1..3 replicas × 1..4 shards, each (replica, shard) a real ShardReplicaState with its own Lamport clock, clocks started at 0/3/17/100/1000, remote stamps far ahead, LWW writes / deletes / hash writes / hash deletes on 6 colliding keys, 1/8 with type changes, 1/10 with structured random values) laid out twice into checkpoint / covered segments / 0..5 segments (updates duplicated 1/5, shuffled 1/2) through the real Manifest API, plus a WAL (2/3) and a missing-segment variant (1/8); distinct by the op text of both layouts; non-trivial iff the recovered fold has more than one key or more than two persisted updates, or a WAL is replayed");
+    out.finish("case = one generated update set (1..3 replicas × 1..16 shards, each (replica, shard) a real ShardReplicaState with its own Lamport clock, clocks started at 0/3/17/100/1000, remote stamps far ahead, LWW writes / deletes / hash writes / hash deletes on 6 colliding keys, 1/8 with type changes, 1/10 with structured random values) laid out twice into checkpoint / covered segments / 0..5 segments (updates duplicated 1/5, shuffled 1/2) through the real Manifest API, plus a WAL (2/3) and a missing-segment variant (1/8); distinct by the op text of both layouts; non-trivial iff the recovered fold has more than one key or more than two persisted updates, or a WAL is replayed");
 }
